@@ -155,3 +155,42 @@ func vh_L1_Equal() {
 	verif.Assert((got == 1) == same, "Equal == 1 iff the cross-products agree mod p (same affine point when Z1*Z2 != 0)")
 	verif.Assert(got == 0 || got == 1, "Equal returns a bit")
 }
+
+// Conversions used only by the variable-time routines (the others are exercised inside Add / Sub / double):
+// they keep the affine point and establish T*Z = X*Y.
+//
+//verif:ob prop=C03,C06 name=L1_setProjective_and_SetCompleted mode=int tags=purego,force32bit use=fa
+func vh_L1_conversions() {
+	P := field.VerifP()
+	// projective (x*z : y*z : z) -> extended
+	var pp projectivePoint
+	x, y, z := verif.AnyIntG("p.x"), verif.AnyIntG("p.y"), verif.AnyIntG("p.z")
+	pp.X, pp.Y, pp.Z = anyReduced("pX"), anyReduced("pY"), anyReduced("pZ")
+	field.VerifSetFv(&pp.X, x.Mul(z))
+	field.VerifSetFv(&pp.Y, y.Mul(z))
+	field.VerifSetFv(&pp.Z, z)
+	var e EdwardsPoint
+	e.setProjective(&pp)
+	X, Y, Z, T := fvs(&e)
+	verif.Assert(verif.ModEq(X, x.Mul(Z), P) && verif.ModEq(Y, y.Mul(Z), P), "setProjective keeps the affine point: X = x*Z, Y = y*Z")
+	verif.Assert(verif.ModEq(T.Mul(Z), X.Mul(Y), P), "setProjective: T*Z = X*Y")
+	verif.Assert(reducedPoint(&e), "setProjective: reduced")
+	// completed ((x*zc : zc), (y*tc : tc)) -> projective
+	var cp completedPoint
+	cx, cy, zc, tc := verif.AnyIntG("c.x"), verif.AnyIntG("c.y"), verif.AnyIntG("c.z"), verif.AnyIntG("c.t")
+	cp.X, cp.Y, cp.Z, cp.T = anyReduced("cX"), anyReduced("cY"), anyReduced("cZ"), anyReduced("cT")
+	field.VerifSetFv(&cp.X, cx.Mul(zc))
+	field.VerifSetFv(&cp.Z, zc)
+	field.VerifSetFv(&cp.Y, cy.Mul(tc))
+	field.VerifSetFv(&cp.T, tc)
+	var q projectivePoint
+	q.SetCompleted(&cp)
+	qX, qY, qZ := field.VerifFv(&q.X), field.VerifFv(&q.Y), field.VerifFv(&q.Z)
+	verif.Assert(verif.ModEq(qX, cx.Mul(qZ), P) && verif.ModEq(qY, cy.Mul(qZ), P), "projectivePoint.SetCompleted keeps the affine point")
+	verif.Assert(verif.ModEq(qZ, zc.Mul(tc), P), "projectivePoint.SetCompleted: Z = Z*T (non-zero when both are)")
+	// completed -> extended
+	var e2 EdwardsPoint
+	e2.setCompleted(&cp)
+	X2, Y2, Z2, T2 := fvs(&e2)
+	verif.Assert(verif.ModEq(X2, cx.Mul(Z2), P) && verif.ModEq(Y2, cy.Mul(Z2), P) && verif.ModEq(T2.Mul(Z2), X2.Mul(Y2), P), "setCompleted keeps the affine point and sets T*Z = X*Y")
+}
